@@ -220,6 +220,8 @@ package lua
 //@ requires ls != nil && ls.reg != nil && Inv_reg(ls.reg) && cf != nil && cf.Fn != nil && (!cf.Fn.IsG ==> cf.Fn.Proto != nil)
 //@ requires 0 <= cf.LocalBase && 0 <= cf.NArgs && cf.LocalBase + cf.NArgs <= ls.reg.top
 //@ requires forall k int :: cf.LocalBase <= k && k < cf.LocalBase + cf.NArgs ==> ls.reg.array[k] != nil
+// a vararg prototype reserves a register behind its fixed parameters for the compatibility `arg` table
+//@ requires !cf.Fn.IsG && cfVararg(cf) ==> cfNp(cf) + 1 <= cfNr(cf)
 //@ ensures  Inv_reg(ls.reg) && ls.reg == old(ls.reg) && cf.Fn == old(cf.Fn) && cf.NArgs == old(cf.NArgs) && cf.Base == old(cf.Base) && cf.ReturnBase == old(cf.ReturnBase) && cf.NRet == old(cf.NRet) && cf.Pc == old(cf.Pc) && cf.Parent == old(cf.Parent)
 //@ ensures  "below": forall k int :: 0 <= k && k < old(cf.LocalBase) ==> ls.reg.array[k] == old(ls.reg.array[k])
 //@ ensures  "host": old(cf.Fn.IsG) ==> cf.LocalBase == old(cf.LocalBase) && ls.reg.top == old(cf.LocalBase + cf.NArgs) && (forall k int :: 0 <= k && k < ls.reg.top ==> ls.reg.array[k] == old(ls.reg.array[k]))
@@ -227,7 +229,6 @@ package lua
 //@ ensures  "vararg-base": old(!cf.Fn.IsG && cfVararg(cf)) ==> cf.LocalBase == old(cf.LocalBase + max(cf.NArgs, cfNp(cf))) && ls.reg.top == cf.LocalBase + old(cfNr(cf))
 //@ ensures  "vararg-params": old(!cf.Fn.IsG && cfVararg(cf)) ==> (forall k int :: cf.LocalBase <= k && k < cf.LocalBase + old(min(cf.NArgs, cfNp(cf))) ==> ls.reg.array[k] == old(ls.reg.array[k - max(cf.NArgs, cfNp(cf))])) && (forall k int :: cf.LocalBase + old(min(cf.NArgs, cfNp(cf))) <= k && k < cf.LocalBase + old(cfNp(cf)) ==> ls.reg.array[k] == LNil)
 //@ ensures  "vararg-extra": old(!cf.Fn.IsG && cfVararg(cf)) ==> (forall k int :: old(cf.LocalBase) <= k && k < old(cf.LocalBase + cfNp(cf)) ==> ls.reg.array[k] == LNil) && (forall k int :: old(cf.LocalBase + cfNp(cf)) <= k && k < old(cf.LocalBase + cf.NArgs) ==> ls.reg.array[k] == old(ls.reg.array[k]))
-//@ cut@"nvarargs := nargs - np" the vararg relocation and the compatibility arg table are not verified yet (listed as unverified region)
 //@ modifies ls.reg.array, ls.reg.top, ls.reg.array[*], cf.LocalBase
 //@ loop 1 invariant Inv_reg(ls.reg) && ls.reg == old(ls.reg) && nargs <= i && i <= np && nargs == old(cf.NArgs) && np == old(cfNp(cf)) && proto == old(cf.Fn.Proto) && cf.LocalBase == old(cf.LocalBase) && newSize == cf.LocalBase + np && cap(ls.reg.array) >= newSize && ls.reg.top == old(ls.reg.top) && arrSameOrFresh(ls.reg)
 //@ loop 1 invariant forall k int :: 0 <= k && k < old(ls.reg.top) && !(cf.LocalBase + nargs <= k && k < cf.LocalBase + i) ==> ls.reg.array[k] == old(ls.reg.array[k])
@@ -236,13 +237,29 @@ package lua
 //@ loop 2 invariant forall k int :: 0 <= k && k < old(cf.LocalBase + min(cf.NArgs, cfNp(cf))) ==> ls.reg.array[k] == old(ls.reg.array[k])
 //@ loop 2 invariant forall k int :: old(cf.LocalBase + min(cf.NArgs, cfNp(cf))) <= k && k < cf.LocalBase + i && k < cf.LocalBase + nargs ==> (np <= k - cf.LocalBase || k - cf.LocalBase < np) && (k < cf.LocalBase + np ==> ls.reg.array[k] == ite(k < old(cf.LocalBase + cf.NArgs), old(ls.reg.array[k]), LNil)) && (k >= cf.LocalBase + np ==> ls.reg.array[k] == LNil)
 
-//@ define cfValid(ls *LState, cf callFrame) bool = 0 <= cf.LocalBase && 0 <= cf.NArgs && cf.LocalBase + cf.NArgs <= ls.reg.top && (cf.Fn != nil && !cf.Fn.IsG ==> cf.Fn.Proto != nil) && (forall k int :: cf.LocalBase <= k && k < cf.LocalBase + cf.NArgs ==> ls.reg.array[k] != nil)
+//@ define vaN(cf *callFrame) int = max(cf.NArgs, cfNp(cf))
+//@ loop 3 invariant Inv_reg(ls.reg) && ls.reg == old(ls.reg) && 0 <= i && i <= np && np == old(cfNp(cf)) && nargs == old(vaN(cf)) && nvarargs == nargs - np && proto == old(cf.Fn.Proto) && cf.LocalBase == old(cf.LocalBase) && ls.reg.top == cf.LocalBase + nargs + np && arrSameOrFresh(ls.reg) && cf.Fn == old(cf.Fn) && cf.NArgs == old(cf.NArgs)
+//@ loop 3 invariant forall k int :: 0 <= k && k < old(cf.LocalBase) ==> ls.reg.array[k] == old(ls.reg.array[k])
+//@ loop 3 invariant forall k int :: cf.LocalBase <= k && k < cf.LocalBase + i ==> ls.reg.array[k] == LNil
+//@ loop 3 invariant forall k int :: cf.LocalBase + i <= k && k < cf.LocalBase + np ==> ls.reg.array[k] == ite(k < old(cf.LocalBase + cf.NArgs), old(ls.reg.array[k]), LNil)
+//@ loop 3 invariant forall k int :: cf.LocalBase + np <= k && k < old(cf.LocalBase + cf.NArgs) ==> ls.reg.array[k] == old(ls.reg.array[k])
+//@ loop 3 invariant forall k int :: cf.LocalBase + nargs <= k && k < cf.LocalBase + nargs + i ==> ls.reg.array[k] == ite(k - nargs < old(cf.LocalBase + cf.NArgs), old(ls.reg.array[k - vaN(cf)]), LNil)
+//@ loop 4 invariant Inv_reg(ls.reg) && ls.reg == old(ls.reg) && 0 <= i && i <= nvarargs && np == old(cfNp(cf)) && nargs == old(vaN(cf)) && nvarargs == nargs - np && proto == old(cf.Fn.Proto) && cf.LocalBase == old(cf.LocalBase) && ls.reg.top == cf.LocalBase + nargs + np + 1 && arrSameOrFresh(ls.reg) && cf.Fn == old(cf.Fn) && cf.NArgs == old(cf.NArgs)
+//@ loop 4 invariant argtb != nil && fresh(argtb) && Inv_arr(argtb) && Inv_hash(argtb) && (arrid(argtb.array) == 0 || fresh(argtb.array)) && (arrid(argtb.keys) == 0 || fresh(argtb.keys)) && arrid(argtb.array) != arrid(ls.reg.array) && arrid(argtb.keys) != arrid(ls.reg.array) && (argtb.dict == nil || fresh(argtb.dict)) && (argtb.strdict == nil || fresh(argtb.strdict)) && (argtb.k2i == nil || fresh(argtb.k2i))
+//@ loop 4 invariant forall k int :: 0 <= k && k < old(cf.LocalBase) ==> ls.reg.array[k] == old(ls.reg.array[k])
+//@ loop 4 invariant forall k int :: cf.LocalBase <= k && k < cf.LocalBase + np ==> ls.reg.array[k] == LNil
+//@ loop 4 invariant forall k int :: cf.LocalBase + np <= k && k < old(cf.LocalBase + cf.NArgs) ==> ls.reg.array[k] == old(ls.reg.array[k])
+//@ loop 4 invariant forall k int :: cf.LocalBase + nargs <= k && k < cf.LocalBase + nargs + np ==> ls.reg.array[k] == ite(k - nargs < old(cf.LocalBase + cf.NArgs), old(ls.reg.array[k - vaN(cf)]), LNil)
+//@ loop 4 invariant forall k int :: cf.LocalBase + np <= k && k < cf.LocalBase + nargs ==> ls.reg.array[k] != nil
+
+// every vararg prototype reserves a register behind its fixed parameters for the compatibility `arg` table (compiler fact, assumed)
+//@ define protosOK() bool = forall f *LFunction :: f != nil && !f.IsG && f.Proto != nil && (f.Proto.IsVarArg & 2) != 0 ==> f.Proto.NumParameters + 1 <= f.Proto.NumUsedRegisters
+//@ define cfValid(ls *LState, cf callFrame) bool = protosOK() && 0 <= cf.LocalBase && 0 <= cf.NArgs && cf.LocalBase + cf.NArgs <= ls.reg.top && (cf.Fn != nil && !cf.Fn.IsG ==> cf.Fn.Proto != nil) && (forall k int :: cf.LocalBase <= k && k < cf.LocalBase + cf.NArgs ==> ls.reg.array[k] != nil)
 
 // pushCallFrame: a non-function or a full call stack is a Lua error raised BEFORE the frame is pushed, so
 // callFrameStack.Push's precondition holds and its Go panic is unreachable (C12); the frame set-up is initCallFrame's.
 //@ func (*LState).pushCallFrame [C02 C10 C12]
 //@ requires ls != nil && ls.reg != nil && Inv_reg(ls.reg) && ls.stack != nil && $inv(ls.stack) && cfValid(ls, cf) && fn != nil
-//@ cut@"nvarargs := nargs - np" the vararg relocation of the inlined initCallFrame is not verified yet
 //@ ensures  $inv(ls.stack) && $sp(ls.stack) == old($sp(ls.stack)) + 1 && $sp(ls.stack) >= 1 && ls.currentFrame == $frame(ls.stack, old($sp(ls.stack))) && ls.currentFrame != nil && Inv_reg(ls.reg) && ls.reg == old(ls.reg)
 //@ ensures  ls.currentFrame.Fn.IsG ==> ls.currentFrame.LocalBase == cf.LocalBase && ls.reg.top == cf.LocalBase + cf.NArgs + ite(meta, 1, 0)
 //@ ensures  "call-object-first": meta && ls.currentFrame.Fn.IsG ==> ls.reg.array[cf.LocalBase] == fn && (forall k int :: cf.LocalBase < k && k <= cf.LocalBase + cf.NArgs ==> ls.reg.array[k] == old(ls.reg.array[k-1]))
@@ -289,11 +306,10 @@ package lua
 // overflow and non-function checks precede the frame push, and the inlined pushCallFrame/initCallFrame copies
 // satisfy the contracts of their source functions (BLOCK obligations).
 //@ func jumpTable[OP_CALL] [C02 C07 C12]
-//@ requires Frame(L) && L.stack != nil && $inv(L.stack) && L.G != nil && regsValid(L) && opA(inst) < nreg(L)
+//@ requires protosOK() && Frame(L) && L.stack != nil && $inv(L.stack) && L.G != nil && regsValid(L) && opA(inst) < nreg(L)
 //@ requires opB(inst) != 0 ==> lb(L) + opA(inst) + opB(inst) <= top(L)
 //@ requires opB(inst) == 0 ==> lb(L) + opA(inst) + 1 <= top(L)
 //@ requires fnsValid() && mtsValid(L) && framesValid(L) && tabsValid()
-//@ cut@"nvarargs := nargs - np" the vararg relocation of the inlined initCallFrame is not verified yet
 //@ modifies everything
 
 // ---------------------------------------------------------------------------
@@ -316,13 +332,12 @@ package lua
 // OP_TAILCALL: thin contract (no implicit Go panic; inlined closeUpvalues/initCallFrame/CopyRange copies satisfy
 // the contracts of their source functions).
 //@ func jumpTable[OP_TAILCALL] [C02 C03 C07 C12]
-//@ requires Frame(L) && L.stack != nil && $inv(L.stack) && L.G != nil && regsValid(L) && opA(inst) < nreg(L) && fnsValid() && mtsValid(L) && uvsValid(L) && framesValid(L) && tabsValid()
+//@ requires protosOK() && Frame(L) && L.stack != nil && $inv(L.stack) && L.G != nil && regsValid(L) && opA(inst) < nreg(L) && fnsValid() && mtsValid(L) && uvsValid(L) && framesValid(L) && tabsValid()
 //@ requires opB(inst) != 0 ==> lb(L) + opA(inst) + opB(inst) <= top(L)
 //@ requires opB(inst) == 0 ==> lb(L) + opA(inst) + 1 <= top(L)
 //@ requires 0 <= L.currentFrame.ReturnBase && L.currentFrame.ReturnBase <= L.currentFrame.Base && L.currentFrame.Base < lb(L) && L.currentFrame.NRet >= -1
 // a callable object reached through __call becomes the first argument of its handler, also in tail position
 //@ assert@"if callGFunction(L, true) {" meta ==> L.reg.array[RA + 1] == lv
-//@ cut@"nvarargs := nargs - np" the vararg relocation of the inlined initCallFrame is not verified yet
 //@ modifies everything
 
 // ---------------------------------------------------------------------------
